@@ -235,7 +235,7 @@ def run(ctx):
                 paths.append(to_driver_ops(longest + [dict(op='read', a=dict(x=n, p=p)) for n in order for p in props]))
     uni = ds.UNIVERSES['mc2']
     groups = [('mc2', sc.run_paths(uni, paths, 'W'))]
-    groups.append(('mc2', sc.run_paths(uni, aba_paths(rng, 150 if quick else 4000), 'A')))
+    groups.append(('mc2', sc.run_paths(uni, aba_paths(rng, 320 if quick else 4000), 'A')))
     ops = ['read'] * 12 + MUTATORS
     groups.append(('big', sc.run_random(ds.UNIVERSES['big'], rng, 50 if quick else 1500, 40, 'R', ops)))
     groups.append(('mc3', sc.run_random(ds.UNIVERSES['mc3'], rng, 50 if quick else 1500, 40, 'Q', ops)))
